@@ -104,6 +104,7 @@ func failureKinds(res *vkit.Result) {
 		handler   func(c net.Conn, n int64)
 		gunExtra  map[string]any
 		wantProto int // −1: any
+		wantNet   int // 0: any non-zero code; else the errno of this failure kind
 	}
 	readReq := func(c net.Conn) {
 		buf := make([]byte, 4096)
@@ -116,10 +117,10 @@ func failureKinds(res *vkit.Result) {
 			if tc, ok := c.(*net.TCPConn); ok {
 				_ = tc.SetLinger(0)
 			}
-		}, wantProto: 0},
+		}, wantProto: 0, wantNet: 104}, // ECONNRESET
 		{name: "close-before-response", handler: func(c net.Conn, n int64) { readReq(c) }, wantProto: 0},
 		{name: "header-timeout", handler: func(c net.Conn, n int64) { readReq(c); time.Sleep(600 * time.Millisecond) },
-			gunExtra: map[string]any{"response-header-timeout": "150ms"}, wantProto: 0},
+			gunExtra: map[string]any{"response-header-timeout": "150ms"}, wantProto: 0, wantNet: 110}, // ETIMEDOUT
 		{name: "short-body", handler: func(c net.Conn, n int64) {
 			readReq(c)
 			_, _ = c.Write([]byte("HTTP/1.1 200 OK\r\nContent-Length: 100\r\n\r\nonly-ten-b"))
@@ -128,7 +129,7 @@ func failureKinds(res *vkit.Result) {
 			readReq(c)
 			_, _ = c.Write([]byte("HTTP/1.1 abc nope\r\n\r\n"))
 		}, wantProto: 0},
-		{name: "refused", wantProto: 0},
+		{name: "refused", wantProto: 0, wantNet: 111}, // ECONNREFUSED
 	}
 	for _, k := range kinds {
 		for _, gunType := range []string{"http", "connect"} {
@@ -164,6 +165,9 @@ func failureKinds(res *vkit.Result) {
 			for _, s := range samples {
 				if s.Net == 0 {
 					res.Violate(key+"/net", fmt.Sprintf("the exchange failed (%s) but net code is 0 (proto %d, err %q)", k.name, s.Proto, s.Err), c)
+				}
+				if k.wantNet != 0 && s.Net != 0 && s.Net != k.wantNet {
+					res.Violate(key+"/errno", fmt.Sprintf("failure kind %s reported with net code %d, the errno of this failure is %d (err %q)", k.name, s.Net, k.wantNet, s.Err), c)
 				}
 				if k.wantProto >= 0 && s.Proto != k.wantProto {
 					res.Violate(key+"/proto", fmt.Sprintf("proto code %d, want %d", s.Proto, k.wantProto), c)
